@@ -138,4 +138,69 @@ META["C20"] = {
                     "ast.dump model: injective on field structure, independent of positions / non-field attributes"],
 }
 
+META["C11"] = {
+    "level": "other",
+    "level_text": "Mixed. Deductively proved frame obligations (modifies nothing that existed before "
+    "the call; every store goes to an object allocated in the call) for clone_with_new_ast, MetaData, "
+    "AsPandasDF/AsAwkwardArray/AsROOTTTree/AsParquetFiles, _get_executor, value_async and "
+    "remove_empty_metadata (cleaner) — from 'every operation writes only fresh objects' the history "
+    "quantifier follows for these functions. NOT under engine P: Select/Where/SelectMany (they go "
+    "through source recovery and the type follower) and QMetaData; the history contract (dump and "
+    "item_type of every live stream unchanged after every step) is checked bounded on ~200 seeded "
+    "and directed histories incl. shared ast.Lambda arguments.",
+    "level_note": "One recorded known finding (shared ast.Lambda object across a typed and an untyped "
+    "stream). Trusted: copy.copy / NodeTransformer models, freshness analysis of the engine.",
+    "technique": "contract-based deductive verification of frame (modifies) obligations from the real source; bounded history contract check as labelled stand-in for the operators outside the engine",
+    "p_keys": True,
+    "explanation": "Frame obligations proved for the builders and executors listed; operators that "
+    "parse lambdas are bounded only.",
+    "assumptions": ["histories bounded: <= 14 steps, <= 2 data sets"],
+}
+META["C12"] = {
+    "level": "other",
+    "level_text": "Mixed. Deductively proved: value_async makes exactly one opaque call — the "
+    "override if given, else the executor of the first node on the args[0] chain (loop invariant of "
+    "_get_executor) — with drop_empty_metadata(query) and the title, returns its result, writes "
+    "nothing; clone_with_new_ast / MetaData / As* make no opaque call at all (ghost call log empty). "
+    "Bounded: the same facts for Select/Where/SelectMany/QMetaData, find_EventDataset, make_sync, and "
+    "all completion orders of 3 concurrently awaited value_async calls.",
+    "level_note": "Trusted: `await f(x)` runs f once; make_sync; asyncio cooperative scheduling. "
+    "OS-thread schedules are outside the technique (stated in DESIGN §5).",
+    "technique": "contract-based deductive verification with a ghost call log (z3) for value_async/_get_executor and the literal builders; bounded history contract check for the rest",
+    "p_keys": True,
+    "explanation": "value_async and _get_executor proved against the C12 contract with a ghost call log.",
+    "assumptions": ["thread-level schedules not modelled"],
+}
+META["C13"] = {
+    "level": "other",
+    "level_text": "Deductively proved: as_ast(v) == parse(repr(v)) and as_literal(v) == Constant(v) "
+    "for every embeddable value, and each entry point (MetaData, AsPandasDF, AsAwkwardArray, "
+    "AsROOTTTree, AsParquetFiles) puts exactly that literal at the right argument position (a single "
+    "column name becomes a one-element list). 'Evaluates back to an equal value' then rests on the "
+    "TRUSTED CPython round trip literal_eval(parse(repr(v))) == v, which engine B cross-checks on "
+    "~10 000 values (all strings of length <= 2 over quote/backslash/newline/NUL/bracket/unicode "
+    "characters, numbers, bytes, nestings). check_ast and declared defaults: bounded only.",
+    "level_note": "Level is `other`, not `proof`, because the round-trip fact is an assumed library "
+    "model and check_ast / _fill_in_default_arguments' literal path are only checked bounded.",
+    "technique": "contract-based deductive verification (VCs from real source over a string/parse model, z3) + bounded contract check of the CPython round-trip assumption and of check_ast",
+    "p_keys": True,
+    "explanation": "as_ast / as_literal / literal builders proved against parse(repr(v)); CPython "
+    "round trip assumed and cross-checked bounded.",
+    "assumptions": ["CPython: literal_eval(parse(repr(v))) == v with equal type for the C13 value types"],
+}
+META["C16"] = {
+    "level": "exploration",
+    "level_text": "Bounded contract check only: on ~200 seeded and directed histories of "
+    "QMetaData/operator/branch steps (3 keys, repeated and consecutive calls, dataset roots and "
+    "derived streams, two roots) lookup_query_metadata of every key on every live stream equals the "
+    "abstract view 'most recent value on the derivation path'; the query handed to executors is "
+    "compared with the spec of the same chain. QMetaData and the finder are not yet under engine P "
+    "(heap view of DESIGN §4 C16 not built).",
+    "level_note": "Bounded stand-in; nothing is counted as proved for this property.",
+    "technique": "bounded contract check of the QMetaData / lookup_query_metadata contracts on the real code (labelled stand-in; no obligation discharged deductively)",
+    "p_keys": False,
+    "explanation": "bounded only",
+    "assumptions": ["histories bounded: <= 14 steps"],
+}
+
 NOT_APPLICABLE = {}
